@@ -107,9 +107,55 @@ func (r *Run) verifyTop() {
 			r.ctx.Assert(Not(Eq(v.T, mkInt(0))))
 		}
 		fr.free[fv] = v
-		// captured variables are visible to contracts by name (current value)
+	}
+	// captured variables are visible to contracts by name: entry value in requires and old(), final value in ensures
+	for _, fv := range fn.FreeVars {
+		if l := r.derefLoc(fr.free[fv]); l != nil {
+			if _, clash := penv.vars[fv.Name()]; !clash {
+				x := r.loadTyped(st, l)
+				penv.vars[fv.Name()] = x
+				penv.oldVars[fv.Name()] = x
+			}
+		}
 	}
 	fr.entry = st.clone()
+	if r.spec != nil && r.spec.Implements != "" {
+		isp := r.specs.Funcs["iface:"+r.spec.Implements]
+		if isp == nil {
+			r.fatal = "no interface contract " + r.spec.Implements
+			return
+		}
+		names := r.ifaceParamNames(isp, r.spec.Implements)
+		if len(names)+1 != len(fr.params) {
+			r.fatal = fmt.Sprintf("%s implements %s: arity mismatch", funcKey(fn), r.spec.Implements)
+			return
+		}
+		bind := func(n string, v Val) {
+			if old, ok := penv.vars[n]; ok && !sameVal(old, v) {
+				r.fatal = fmt.Sprintf("%s implements %s: parameter name %q clashes", funcKey(fn), r.spec.Implements, n)
+				return
+			}
+			penv.vars[n] = v
+			penv.oldVars[n] = v
+		}
+		bind("self", fr.params[0])
+		for i, n := range names {
+			bind(n, fr.params[i+1])
+		}
+		if r.fatal != "" {
+			return
+		}
+		r.ifaceSpec = isp
+		r.ifaceAssigns = isp.Assigns
+		for i, c := range isp.Requires {
+			g := penv.evalBool(c.E)
+			if penv.err != nil {
+				r.fatal = fmt.Sprintf("%s (implements) requires %d: %v", funcKey(fn), i+1, penv.err)
+				return
+			}
+			r.ctx.Assert(g)
+		}
+	}
 	for _, k := range activeKnown {
 		if k.excl != nil && strings.HasPrefix(k.Obligation, funcKey(fn)+"/") {
 			t := penv.evalBool(k.excl)
@@ -134,7 +180,29 @@ func (r *Run) verifyTop() {
 			r.ctx.Assert(g)
 		}
 		for _, c := range r.specs.Axioms {
-			_ = c
+			visible := c.Pkg == penv.specPkg
+			for _, u := range r.spec.Uses {
+				if u == c.Pkg+"."+c.Label || u == c.Pkg+".*" {
+					visible = true
+				}
+			}
+			if !visible {
+				continue
+			}
+			aenv := *penv
+			aenv.vars = map[string]Val{}
+			aenv.oldVars = map[string]Val{}
+			if p := r.pkgByShort(c.Pkg); p != nil {
+				aenv.pkg = p
+				aenv.specPkg = c.Pkg
+			}
+			g := aenv.evalBool(c.E)
+			if aenv.err != nil {
+				r.fatal = fmt.Sprintf("axiom %q: %v", c.Text, aenv.err)
+				return
+			}
+			r.ctx.Assert(g)
+			r.trusted["axiom: "+c.Text] = true
 		}
 		// vacuity: the precondition must be satisfiable
 		if len(r.spec.Requires) > 0 {
@@ -142,7 +210,7 @@ func (r *Run) verifyTop() {
 				mark: r.ctx.Mark(), goal: tFalse, ctx: r.ctx, Cover: true, Text: "requires is satisfiable"}
 			r.obls = append(r.obls, o)
 		}
-		r.ghostAt(fr, st, tTrue, "entry", nil)
+		r.ghostAt(fr, st, tTrue, "entry", nil, penv.vars)
 	}
 	entryHeld := map[string]Term{}
 	_ = entryHeld
@@ -173,7 +241,6 @@ func (r *Run) verifyTop() {
 	if r.spec == nil {
 		return
 	}
-	r.ghostAt(fr, final, reach, "return", nil)
 	env := &Env{r: r, vars: map[string]Val{}, oldVars: penv.vars, st: final, old: fr.entry, pkg: penv.pkg, specPkg: penv.specPkg}
 	for k, v := range penv.vars {
 		env.vars[k] = v
@@ -186,19 +253,51 @@ func (r *Run) verifyTop() {
 	if nres == 1 {
 		env.vars["result"] = results[0]
 	}
+	{
+		// ghost code at return sees the parameters' entry values and the results
+		rv := map[string]Val{}
+		for k, v := range env.vars {
+			rv[k] = v
+		}
+		r.ghostAt(fr, final, reach, "return", nil, rv)
+		if r.fatal != "" {
+			return
+		}
+	}
 	// captured variables by name (closures verified on their own)
 	for _, fv := range fn.FreeVars {
 		if l := r.derefLoc(fr.free[fv]); l != nil {
-			if _, clash := env.vars[fv.Name()]; !clash {
+			isParam := false
+			for _, p := range fn.Params {
+				if p.Name() == fv.Name() {
+					isParam = true
+				}
+			}
+			if !isParam {
 				env.vars[fv.Name()] = r.load(final, l)
-				env.oldVars[fv.Name()] = r.load(fr.entry, l)
 			}
 		}
 	}
-	if len(r.spec.Ensures) > 0 {
+	if len(r.spec.Ensures) > 0 || r.ifaceSpec != nil {
 		o := &Obligation{Name: funcKey(fn) + "/cover#return", Kind: "cover", Func: funcKey(fn), Props: r.spec.Props,
 			mark: r.ctx.Mark(), hyps: []Term{reach}, goal: tFalse, ctx: r.ctx, Cover: true, Text: "a normal return is reachable under requires"}
 		r.obls = append(r.obls, o)
+	}
+	if r.ifaceSpec != nil {
+		for i, c := range r.ifaceSpec.Ensures {
+			g := env.evalBool(c.E)
+			if env.err != nil {
+				r.fatal = fmt.Sprintf("%s (implements) ensures %d: %v", funcKey(fn), i+1, env.err)
+				return
+			}
+			props := c.Props
+			if len(props) == 0 {
+				props = r.spec.Props
+			}
+			o := &Obligation{Name: funcKey(fn) + "/refine#" + clauseName(c, i), Kind: "post", Func: funcKey(fn), Props: props,
+				Pos: r.posString(fn.Pos()), Text: "[" + r.spec.Implements + "] " + c.Text, mark: r.ctx.Mark(), hyps: []Term{reach}, goal: g, ctx: r.ctx}
+			r.obls = append(r.obls, o)
+		}
 	}
 	for i, c := range r.spec.Ensures {
 		g := env.evalBool(c.E)
@@ -211,16 +310,16 @@ func (r *Run) verifyTop() {
 			Pos: r.posString(fn.Pos()), Text: c.Text, mark: r.ctx.Mark(), hyps: []Term{reach}, goal: g, ctx: r.ctx}
 		r.obls = append(r.obls, o)
 	}
-	r.frameCheck(fr, final, reach, penv)
+	r.frameCheck(fr, final, reach, penv, env)
 }
 
 // frameCheck: everything not listed in assigns is unchanged for objects that existed at entry.
-func (r *Run) frameCheck(fr *Frame, final *State, reach Term, penv *Env) {
+func (r *Run) frameCheck(fr *Frame, final *State, reach Term, penv *Env, fenv *Env) {
 	sp := r.spec
 	if sp.Havoc {
 		return
 	}
-	for _, a := range sp.Assigns {
+	for _, a := range r.allAssigns() {
 		if id, ok := a.(*EIdent); ok && id.Name == "everything" {
 			return
 		}
@@ -244,10 +343,22 @@ func (r *Run) frameCheck(fr *Frame, final *State, reach Term, penv *Env) {
 		}
 		return allowed[c]
 	}
-	aenv := *penv
-	aenv.st = entry
-	aenv.old = entry
-	for _, a := range sp.Assigns {
+	preEnv := *penv
+	preEnv.st = entry
+	preEnv.old = entry
+	rnames := map[string]bool{"result": true}
+	for i, n := range resultNames(fr.fn.Signature, nil) {
+		rnames[n] = true
+		rnames[fmt.Sprintf("result%d", i)] = true
+	}
+	postEnv := *fenv
+	var aenvp *Env
+	for _, a := range r.allAssigns() {
+		aenvp = &preEnv
+		if mentionsNames(a, rnames) {
+			aenvp = &postEnv
+		}
+		aenv := aenvp
 		switch x := a.(type) {
 		case *EIdent:
 			if _, ok := r.specs.Ghosts[x.Name]; ok {
@@ -289,7 +400,7 @@ func (r *Run) frameCheck(fr *Frame, final *State, reach Term, penv *Env) {
 			}
 			if !handled {
 				v := aenv.eval(x.X)
-				if l := r.fieldByName(entry, v, x.Sel); l != nil {
+				if l := r.fieldByName(aenv.st, v, x.Sel); l != nil {
 					get(l.Comp).idxs = append(get(l.Comp).idxs, l.Idx)
 				}
 			}
@@ -322,9 +433,11 @@ func (r *Run) frameCheck(fr *Frame, final *State, reach Term, penv *Env) {
 			}
 		}
 	}
-	if aenv.err != nil {
-		r.fatal = fmt.Sprintf("%s assigns: %v", funcKey(fr.fn), aenv.err)
-		return
+	for _, ae := range []*Env{&preEnv, &postEnv} {
+		if ae.err != nil {
+			r.fatal = fmt.Sprintf("%s assigns: %v", funcKey(fr.fn), ae.err)
+			return
+		}
 	}
 	for _, c := range comps {
 		if c == "$top" {
@@ -407,4 +520,56 @@ func (o *Obligation) Held() bool {
 		return o.Result.Status != "unsat" // unsat would mean: vacuous
 	}
 	return o.Result.Status == "unsat"
+}
+
+// allAssigns: the function's own assigns plus those of the interface method it implements.
+func (r *Run) allAssigns() []Expr {
+	out := append([]Expr(nil), r.spec.Assigns...)
+	if r.ifaceSpec != nil {
+		out = append(out, r.ifaceAssigns...)
+	}
+	return out
+}
+
+func (r *Run) ifaceParamNames(isp *FuncSpec, key string) []string {
+	if len(isp.Params) > 0 {
+		return isp.Params
+	}
+	k := strings.LastIndex(key, ".")
+	if k < 0 {
+		return nil
+	}
+	t := r.resolveType(r.specEnvPkg(isp), key[:k])
+	if t == nil {
+		if k2 := strings.LastIndex(key[:k], "."); k2 >= 0 {
+			if p := r.pkgByShort(key[:k2]); p != nil {
+				if o := p.Scope().Lookup(key[k2+1 : k]); o != nil {
+					t = o.Type()
+				}
+			}
+		}
+	}
+	if t == nil {
+		return nil
+	}
+	it, ok := t.Underlying().(*types.Interface)
+	if !ok {
+		return nil
+	}
+	for i := 0; i < it.NumMethods(); i++ {
+		m := it.Method(i)
+		if m.Name() == key[k+1:] {
+			sig := m.Type().(*types.Signature)
+			var names []string
+			for j := 0; j < sig.Params().Len(); j++ {
+				n := sig.Params().At(j).Name()
+				if n == "" || n == "_" {
+					n = fmt.Sprintf("arg%d", j)
+				}
+				names = append(names, n)
+			}
+			return names
+		}
+	}
+	return nil
 }
